@@ -395,7 +395,7 @@ class Ctx:
 # --------------------------------------------------------------------------------------
 
 def check_trace(ctx, tla, cfg, trace_path, sig_of, group_key=None, timeout=900, selftest=True,
-                result_field="r", env=None, max_rounds=12, xmx="4g"):
+                result_field="r", env=None, max_rounds=12, xmx="4g", selftest_filter=None):
     """Validate `trace_path` against the trace spec.  On rejection at event k:
        sig_of(event, events, k) gives the signature; if it is a known finding the offending
        event is dropped (together with every later event with the same signature) and the
@@ -434,7 +434,7 @@ def check_trace(ctx, tla, cfg, trace_path, sig_of, group_key=None, timeout=900, 
     ctx.add("traces_validated_against_impl", 1)
     ctx.add("trace_events_validated", total_validated)
     if selftest and not ctx.violations:
-        binding_selftest(ctx, tla, cfg, cur, result_field, group_key, timeout, env)
+        binding_selftest(ctx, tla, cfg, cur, result_field, group_key, timeout, env, selftest_filter)
     return total_validated
 
 
@@ -451,10 +451,13 @@ def _context(events, k, group_key):
     return events[start:k + 1]
 
 
-def binding_selftest(ctx, tla, cfg, events, result_field, group_key, timeout, env):
+def binding_selftest(ctx, tla, cfg, events, result_field, group_key, timeout, env, selftest_filter=None):
     """Corrupt one recorded result and require the trace spec to reject exactly there.
-    A spec that accepts the corrupted trace is vacuous for that field: tool error."""
-    cands = [i for i, e in enumerate(events) if isinstance(e.get(result_field), int) and not isinstance(e.get(result_field), bool)]
+    A spec that accepts the corrupted trace is vacuous for that field: tool error.
+    selftest_filter(event) restricts the candidates to events in which `result_field` really
+    is a RESULT (in some event kinds the same name is an argument)."""
+    cands = [i for i, e in enumerate(events) if isinstance(e.get(result_field), int) and not isinstance(e.get(result_field), bool)
+             and (selftest_filter is None or selftest_filter(e))]
     if not cands:
         ctx.cov["binding_selftest"] = "no integer result field to corrupt"
         return
